@@ -114,7 +114,8 @@ def expected(cols, lids):
         for j, c in enumerate(cols[p]): contrib.setdefault(c, []).append((p, j))
     def rrow(p, j):
         c = cols[p][j]
-        return [((3 * c + p) % 13, Fraction(p + 1) + Fraction(j, 8))] + ([((3 * c + p + 5) % 13, Fraction(-j))] if c % 2 else [])
+        return [((3 * c + p) % 13, Fraction(p + 1) + Fraction(j, 8))] + ([((3 * c + p + 5) % 13, Fraction(-j))] if c % 2 else []) + \
+               ([(c % 13, Fraction(p + 1, 2))] if c % 3 else [])
     def rr(g):
         d = {}
         for (p, j) in contrib.get(g, []):
